@@ -304,10 +304,16 @@ def e2e_cases(tier):
         if tier == "quick" and (ti + 2 * tj + di + ni) % 3:
             continue
         out.append(("e2e", ti, tj, di, ni))
+    # the same with output modulation on a channel of finite bandwidth: the emulation lasts LONGER than the programmed sequence
+    # (modulation tail), so relative times refer to the emulated duration - for the states and for the Hamiltonian alike
+    for ti, tj, di, ni in itertools.product(range(len(E2E_TIMES)), range(len(E2E_TIMES)), range(len(E2E_DEFAULT)), range(len(E2E_NOISE))):
+        if tier == "quick" and (ti + tj + 2 * di + ni) % 4:
+            continue
+        out.append(("e2e", ti, tj, di, ni, 1))
     return out
 
 
-def check_e2e(ti, tj, di, ni):
+def check_e2e(ti, tj, di, ni, mi=0):
     from pulser import Pulse, Register, Sequence
     from pulser.backend import CorrelationMatrix, Energy, EnergySecondMoment, EnergyVariance, Occupation, StateResult
     from pulser.noise_model import NoiseModel
@@ -315,7 +321,7 @@ def check_e2e(ti, tj, di, ni):
 
     from mc.worlds import World
 
-    dev = World(dict(name="e2e")).device
+    dev = World(dict(name="e2e", bw=8) if mi else dict(name="e2e")).device
     seq = Sequence(Register({"q0": (0.0, 0.0), "q1": (6.0, 0.0)}), dev)
     seq.declare_channel("g", "rydberg_global")
     seq.add(Pulse.ConstantPulse(80, 5.0, 1.0, 0.0), "g")
@@ -324,7 +330,8 @@ def check_e2e(ti, tj, di, ni):
     try:
         obs = [StateResult(evaluation_times=t1), Occupation(evaluation_times=t2), Energy(evaluation_times=t1, tag_suffix="a"),
                EnergyVariance(evaluation_times=t2), EnergySecondMoment(), CorrelationMatrix(evaluation_times=t1)]
-        cfg = QutipConfig(observables=obs, default_evaluation_times=E2E_DEFAULT[di], noise_model=NoiseModel(**(E2E_NOISE[ni] or {})))
+        cfg = QutipConfig(observables=obs, default_evaluation_times=E2E_DEFAULT[di], noise_model=NoiseModel(**(E2E_NOISE[ni] or {})),
+                          **(dict(with_modulation=True) if mi else {}))
     except Exception as e:
         return [("@config-refused", type(e).__name__)]
     out = []
@@ -333,6 +340,9 @@ def check_e2e(ti, tj, di, ni):
     except Exception as e:
         return [(f"C20:run-raises:{type(e).__name__}", f"times {t1}/{t2}, default {E2E_DEFAULT[di]}, noise {E2E_NOISE[ni]}: {e}"[:250])]
     T = res.total_duration
+    if mi:
+        if T <= seq.get_duration():
+            return [("C20:modulated-emulation-not-longer-than-the-program", f"{T} vs {seq.get_duration()}")]
     for o in obs:
         want = o.evaluation_times if o.evaluation_times is not None else E2E_DEFAULT[di]
         times = res.get_result_times(o)
@@ -380,7 +390,7 @@ def check_e2e(ti, tj, di, ni):
                 continue
             if np.max(np.abs(np.asarray(val, dtype=complex) - exp)) > 1e-7 * max(1.0, float(np.max(np.abs(exp)))):
                 kind = "mixed" if st.isoper else "pure"
-                out.append((f"C20:stored-{o._base_tag}-differs-from-definition:{kind}", f"t={t}: {val} vs {exp}"))
+                out.append((f"C20:stored-{o._base_tag}-differs-from-definition:{kind}{':with-modulation' if mi else ''}", f"t={t}: {val} vs {exp}"))
     return out + [("@e2e", "")]
 
 
